@@ -10,30 +10,39 @@
 //@ fn StringDictionaryHASHRPDAC::locate
 //@   requires(__CPROVER_r_ok(this, sizeof(*this)) && __CPROVER_r_ok(this->hash, sizeof(HashDAC)) && this->hash->tsize >= 1 && this->hash->tsize <= TSMAX && g_ones <= this->hash->tsize && strLen <= 100000 && __CPROVER_r_ok(str, (size_t)strLen + 1))
 //@   ensures(RET == NORESULT || (RET >= 1 && RET <= g_ones))
-//@   assigns(g_acc_idx, g_acc_val)
-//@   loop 1: assigns(i, next, pos, g_acc_idx, g_acc_val)
-//@   loop 1: invariant(1 <= i && i <= this->hash->tsize)
+//@   requires(g_nacc == 0)
+//@   ensures(RET == NORESULT ==> (!g_acc_val || g_nacc == this->hash->tsize))
+//@   assigns(g_nacc, g_acc_idx, g_acc_val)
+//@   loop 1: assigns(i, next, pos, g_nacc, g_acc_idx, g_acc_val)
+//@   loop 1: invariant(g_nacc == i && 1 <= i && i <= this->hash->tsize)
 //@   loop 1: decreases(this->hash->tsize - i)
 //@ fn StringDictionaryHASHRPF::locate tu=StringDictionaryHASHRPF.cpp
-//@   requires(__CPROVER_r_ok(this, sizeof(*this)) && __CPROVER_r_ok(this->hash, sizeof(Hash)) && this->hash->tsize >= 1 && this->hash->tsize <= TSMAX && g_ones <= this->hash->tsize && strLen <= 100000 && __CPROVER_rw_ok(str, (size_t)strLen + 1) && str[strLen] == 0)
+//@   requires(__CPROVER_r_ok(this, sizeof(*this)) && __CPROVER_r_ok(this->hash, sizeof(Hash)) && this->hash->tsize >= 1 && this->hash->tsize <= TSMAX && g_ones <= this->hash->tsize && strLen <= 100000 && __CPROVER_rw_ok(str, (size_t)strLen + 1) && str[strLen] == 0 && __CPROVER_r_ok(this->rp, sizeof(RePair)))
 //@   ensures(RET == NORESULT || (RET >= 1 && RET <= g_ones))
 //@   ensures(gk <= strLen ==> str[gk] == OLD(str[gk]))
-//@   assigns(g_acc_idx, g_acc_val, str[strLen])
-//@   loop 1: assigns(i, next, g_acc_idx, g_acc_val, str[strLen])
-//@   loop 1: invariant(1 <= i && i <= this->hash->tsize && str[strLen] == 0 && (gk < strLen ==> str[gk] == __CPROVER_loop_entry(str[gk])))
-//@   loop 1: decreases(this->hash->tsize - i)
+//@   requires(g_nacc == 0)
+//@   ensures(RET == NORESULT ==> (!g_acc_val || g_nacc == this->hash->tsize || g_nacc == 0))
+//@   assigns(g_nacc, g_acc_idx, g_acc_val, str[strLen])
+//@   loop 1: assigns(i)
+//@   loop 1: invariant(i <= strLen && (gk < i ==> str[gk] != this->rp->maxchar))
+//@   loop 1: decreases(strLen - i)
+//@   loop 2: assigns(i, next, g_nacc, g_acc_idx, g_acc_val, str[strLen])
+//@   loop 2: invariant(g_nacc == i && 1 <= i && i <= this->hash->tsize && str[strLen] == 0 && (gk < strLen ==> str[gk] == __CPROVER_loop_entry(str[gk])))
+//@   loop 2: decreases(this->hash->tsize - i)
 //@ fn HashDAC::search tu=Hash/HashDAC.cpp
 //@   requires(__CPROVER_r_ok(this, sizeof(*this)) && this->tsize >= 1 && this->tsize <= TSMAX && g_ones <= this->tsize && len <= 100000 && (len == 0 || __CPROVER_r_ok(w, len)))
 //@   ensures(RET == (size_t)-1 || RET < g_ones)
-//@   assigns(g_acc_idx, g_acc_val)
-//@   loop 1: assigns(i, hval, pos, g_acc_idx, g_acc_val)
-//@   loop 1: invariant(1 <= i && i <= this->tsize && hval < this->tsize)
+//@   requires(g_nacc == 0)
+//@   ensures(RET == (size_t)-1 ==> (!g_acc_val || g_nacc == this->tsize))
+//@   assigns(g_nacc, g_acc_idx, g_acc_val)
+//@   loop 1: assigns(i, hval, pos, g_nacc, g_acc_idx, g_acc_val)
+//@   loop 1: invariant(g_nacc == i && 1 <= i && i <= this->tsize && hval < this->tsize)
 //@   loop 1: decreases(this->tsize - i)
-//@ ob hashrpdac_locate entry=h_hrpdac_locate enforce=StringDictionaryHASHRPDAC__locate replace=bitwisehash,step_value,BitSequence__access,BitSequence__rank1,RePair__extractStringAndCompareDAC loops tier=P props=C02,C01,C07,C14 kind=representation timeout=900
-//@ ob hashrpf_locate entry=h_hrpf_locate enforce=StringDictionaryHASHRPF__locate replace=bitwisehash,step_value,BitSequence__access,BitSequence__rank1,RePair__extractStringAndCompareRP,Hash__getValuePos loops tier=P props=C02,C14,C07 kind=representation timeout=900
-//@ ob hashdac_search entry=h_hashdac_search enforce=HashDAC__search replace=bitwisehash,step_value,BitSequence__access,BitSequence__rank1,HashDAC__scmp loops tier=P props=C02,C07,C14 kind=representation timeout=900
+//@ ob hashrpdac_locate entry=h_hrpdac_locate enforce=StringDictionaryHASHRPDAC__locate replace=bitwisehash,step_value,BitSequence__access,BitSequence__rank1,RePair__extractStringAndCompareDAC loops tier=P props=C02,C01,C07,C14,C12 kind=representation timeout=900
+//@ ob hashrpf_locate entry=h_hrpf_locate enforce=StringDictionaryHASHRPF__locate replace=bitwisehash,step_value,BitSequence__access,BitSequence__rank1,RePair__extractStringAndCompareRP,Hash__getValuePos loops tier=P props=C02,C14,C07,C12,C01 kind=representation timeout=900
+//@ ob hashdac_search entry=h_hashdac_search enforce=HashDAC__search replace=bitwisehash,step_value,BitSequence__access,BitSequence__rank1,HashDAC__scmp loops tier=P props=C02,C07,C14,C12 kind=representation timeout=900
 #define TSMAX ((size_t)1 << 24)
-size_t g_ones; size_t g_acc_idx; bool g_acc_val; size_t gk;
+size_t g_ones; size_t g_nacc; /* ghost: number of table cells inspected so far */ size_t g_acc_idx; bool g_acc_val; size_t gk;
 //@ structs
 /* TRUSTED: hash function ranges and probe-step range are proved in unit hash (hash_bitwisehash, hash_step_value); table bitmap interface as in unit hash; grammar comparisons: frames (extractStringAndCompareRP's restoration of the terminator is proved in unit repair) */
 size_t bitwisehash(uchar *word, size_t len, size_t htsize)
@@ -41,13 +50,13 @@ __CPROVER_requires(htsize >= 1 && len <= 100000) __CPROVER_ensures(RET < htsize)
 size_t step_value(uchar *word, size_t len, size_t htsize)
 __CPROVER_requires(htsize >= 1 && len <= 100000) __CPROVER_ensures((htsize == 1 && RET == 0) || (htsize >= 2 && RET >= 1 && RET < htsize)) __CPROVER_assigns();
 bool BitSequence__access(BitSequence *this, size_t i)
-__CPROVER_requires(i < TSMAX) __CPROVER_ensures(g_acc_idx == i && g_acc_val == RET) __CPROVER_assigns(g_acc_idx, g_acc_val);
+__CPROVER_requires(i < TSMAX) __CPROVER_ensures(g_acc_idx == i && g_acc_val == RET && g_nacc == OLD(g_nacc) + 1) __CPROVER_assigns(g_acc_idx, g_acc_val, g_nacc);
 size_t BitSequence__rank1(BitSequence *this, size_t i)
 __CPROVER_requires(i < TSMAX) __CPROVER_ensures(RET <= i + 1 && RET <= g_ones && ((g_acc_idx == i && g_acc_val) ==> RET >= 1)) __CPROVER_assigns();
 int RePair__extractStringAndCompareDAC(RePair *this, uint id, uchar *str, uint strLen)
 __CPROVER_requires(id >= 1) __CPROVER_ensures(1) __CPROVER_assigns();
 int RePair__extractStringAndCompareRP(RePair *this, uint id, uchar *str, uint strLen)
-__CPROVER_requires(__CPROVER_rw_ok(str, (size_t)strLen + 1) && str[strLen] == 0) __CPROVER_ensures(str[strLen] == 0) __CPROVER_assigns(str[strLen]);
+__CPROVER_requires(__CPROVER_rw_ok(str, (size_t)strLen + 1) && str[strLen] == 0) __CPROVER_requires(gk < strLen ==> str[gk] != this->maxchar) __CPROVER_ensures(str[strLen] == 0) __CPROVER_assigns(str[strLen]);
 size_t Hash__getValuePos(Hash *this, size_t i)
 __CPROVER_requires(i < TSMAX) __CPROVER_ensures(1) __CPROVER_assigns();
 int HashDAC__scmp(HashDAC *this, size_t pos, uchar *w, size_t _u2)
@@ -64,6 +73,7 @@ void h_hrpf_locate(void) {
   StringDictionaryHASHRPF *d = malloc(sizeof(StringDictionaryHASHRPF)); __CPROVER_assume(d != NULL);
   d->hash = malloc(sizeof(Hash)); __CPROVER_assume(d->hash != NULL);
   uint in_len; __CPROVER_assume(in_len <= 100000 && gk <= in_len); uchar *s = malloc((size_t)in_len + 1); __CPROVER_assume(s != NULL);
+  d->rp = malloc(sizeof(RePair)); __CPROVER_assume(d->rp != NULL);
   StringDictionaryHASHRPF__locate(d, s, in_len);
   REACH_POINT();
 }
